@@ -235,6 +235,25 @@ def run(ctx) -> None:
             for _ in range(rng.choice([1, 1, 2, 3])):
                 line = mutate(rng, line)
             check_schema(ctx, schemas, version, line)
+        # every character Unicode calls a digit, a number or a letter-number (Nd, No, Nl: ~1 900 code points - superscripts,
+        # circled and parenthesised numbers, fractions, Roman numerals, digits of every script) alone and next to ASCII
+        # digits in each header field: int() accepts only the Nd ones, str.isdigit / isnumeric say yes to more
+        import sys
+        import unicodedata
+
+        digitlike = [chr(cp) for cp in range(128, sys.maxunicode + 1) if unicodedata.category(chr(cp)) in ("Nd", "No", "Nl")]
+        ctx.exhaustive["digit-like-code-points"] = len(digitlike)
+        plain = ["1", "0", "1", "0", "2"]
+        for index, ch in enumerate(digitlike):
+            if not ctx.mine():
+                continue
+            version = VERSIONS[index % 5]
+            for position in range(5):
+                for text in (ch, plain[position] + ch) if (index + position) % 3 else (ch, ch + plain[position], ch + ch):
+                    parts = list(plain)
+                    parts[position] = text
+                    check_schema(ctx, schemas, version, ";".join(parts) + ";1")
+                    ctx.clause("digit-like-field")
         # truncate valid lines at every position
         for i in range(ctx.pick(60, 600) // ctx.shard_count + 1):
             version = VERSIONS[i % 5]
